@@ -19,9 +19,11 @@ func H_C08_precedence() {
 		return ""
 	}
 	set := hxSet(nil,
-		"/base.jet", `<{{ block b() }}BASE{{ end }}|{{ yield b() }}>`,
+		"/base.jet", `<{{ block b() }}BASE{{ end }}|{{ yield b() }}>{{ yield deep() }}{{ yield deep2() }}{{ yield viaExt() }}{{ yield only1() }}`,
 		"/mid.jet", `{{ extends "/base.jet" }}MIDTEXT`+def(mid, "MID"),
-		"/i1.jet", `I1TEXT`+def(i1, "I1")+`{{ block only1() }}x{{ end }}`,
+		"/i0.jet", `{{ block deep() }}DEEP{{ end }}{{ block deep2() }}D2{{ end }}`,
+		"/i0base.jet", `{{ block viaExt() }}VE{{ end }}`,
+		"/i1.jet", `{{ extends "/i0base.jet" }}{{ import "/i0.jet" }}I1TEXT`+def(i1, "I1")+`{{ block only1() }}x{{ end }}{{ block deep2() }}D2I1{{ end }}`,
 		"/i2.jet", `I2TEXT`+def(i2, "I2"),
 		"/main.jet", `{{ extends "/mid.jet" }}{{ import "/i1.jet" }}{{ import "/i2.jet" }}MAINTEXT`+def(own, "OWN"),
 	)
@@ -45,7 +47,7 @@ func H_C08_precedence() {
 		vfReach("base")
 	}
 	vfNote(out)
-	vfAssert(out == "<"+want+"|"+want+">", "root body rendered with the most-derived block definition; nothing else reaches the output")
+	vfAssert(out == "<"+want+"|"+want+">DEEPD2I1VEx", "root body rendered with the most-derived block definition (also for blocks an import got from its own imports / extends); nothing else reaches the output")
 }
 
 // H_C08_params: a block with two defaulted parameters yielded with every subset and order
